@@ -403,3 +403,167 @@ impl ServerEntity {
         ensures only_rest_differs(old(tx).cur(), final(tx).cur()),
     { unimplemented!() }
 }
+
+// ---- `import_account`, the part before the transaction: the file-system account ---------------------------------
+/// std::path::PathBuf — opaque
+#[verifier::external_body]
+pub struct PathBuf { _p: () }
+/// the ghost file system the importer READS (it writes nothing under the account directory): the bytes of the file at
+/// a path / whether it exists.  Constant during one `import_account` (nobody writes the source account during an upgrade).
+pub uninterp spec fn file_bytes(p: PathBuf) -> Seq<u8>;
+pub uninterp spec fn file_exists(p: PathBuf) -> bool;
+/// sos_vfs (crates/vfs/src/os.rs = tokio::fs): `read` gives the bytes of the file, `try_exists` whether it exists
+pub mod vfs {
+    use super::*;
+    #[verifier::external_body]
+    pub fn read(p: PathBuf) -> (r: pre::Result<Vec<u8>>)
+        ensures r matches Ok(b) ==> b@ == file_bytes(p),
+    { unimplemented!() }
+    #[verifier::external_body]
+    pub fn try_exists(p: PathBuf) -> (r: pre::Result<bool>)
+        ensures r matches Ok(b) ==> b == file_exists(p),
+    { unimplemented!() }
+}
+/// `decode::<Vault>(bytes)` (crates/vault/src/encoding/v1/vault.rs, under contract in unit `vaultcodec`): here only a
+/// NAME for the vault a file holds
+pub uninterp spec fn dec_vault(b: Seq<u8>) -> Option<VaultV>;
+impl Decoded for Vault {
+    open spec fn dec_view(b: Seq<u8>) -> Option<VaultV> { dec_vault(b) }
+}
+/// the vault stored in the file at `p`
+pub open spec fn fs_vault(p: PathBuf) -> VaultV { dec_vault(file_bytes(p))->Some_0 }
+
+/// sos_core::Paths (crates/core/src/paths.rs) behind `Arc`: the locations of an account's files.  Opaque; each
+/// accessor is a function of the value.
+#[verifier::external_body]
+pub struct Paths { _p: () }
+impl Arc<Paths> {
+    pub uninterp spec fn identity_vault_p(&self) -> PathBuf;
+    pub uninterp spec fn account_events_p(&self) -> PathBuf;
+    pub uninterp spec fn device_file_p(&self) -> PathBuf;
+    pub uninterp spec fn device_events_p(&self) -> PathBuf;
+    pub uninterp spec fn file_events_p(&self) -> PathBuf;
+    pub uninterp spec fn is_server_v(&self) -> bool;
+    #[verifier::external_body]
+    pub fn is_global(&self) -> (r: bool) { unimplemented!() }
+    #[verifier::external_body]
+    pub fn is_server(&self) -> (r: bool) ensures r == self.is_server_v() { unimplemented!() }
+    #[verifier::external_body]
+    pub fn identity_vault(&self) -> (r: PathBuf) ensures r == self.identity_vault_p() { unimplemented!() }
+    #[verifier::external_body]
+    pub fn account_events(&self) -> (r: PathBuf) ensures r == self.account_events_p() { unimplemented!() }
+    #[verifier::external_body]
+    pub fn device_file(&self) -> (r: PathBuf) ensures r == self.device_file_p() { unimplemented!() }
+    #[verifier::external_body]
+    pub fn device_events(&self) -> (r: PathBuf) ensures r == self.device_events_p() { unimplemented!() }
+    #[verifier::external_body]
+    pub fn file_events(&self) -> (r: PathBuf) ensures r == self.file_events_p() { unimplemented!() }
+    /// the (summary, path) pairs `list_local_folders` returns for this account
+    pub uninterp spec fn user_folders_v(&self) -> Seq<(Summary, PathBuf)>;
+}
+/// sos_vault::list_local_folders (crates/vault/src/lib.rs:82): every `*.vault` file of the vaults directory with the
+/// summary read from THAT file's header (`Header::read_summary_file(entry.path())`, :91)
+#[verifier::external_body]
+pub fn list_local_folders(paths: &Arc<Paths>) -> (r: VResult<Vec<(Summary, PathBuf)>>)
+    ensures r matches Ok(v) ==> v@ == paths.user_folders_v()
+        && forall|i: int| 0 <= i < v@.len() ==> (dec_vault(file_bytes((#[trigger] v@[i]).1)) matches Some(vv) ==> v@[i].0@ == vv.head.summary),
+{ unimplemented!() }
+
+/// sos_core::AccountId (crates/core/src/account.rs:14): 20 bytes; `Display` = "0x" + 40 hex digits
+#[verifier::external_body]
+pub struct AccountId { _p: () }
+pub uninterp spec fn account_text(a: AccountId) -> Seq<char>;
+impl AccountId {
+    /// `ToString` through `impl fmt::Display for AccountId` (crates/core/src/account.rs)
+    #[verifier::external_body]
+    pub fn to_string(&self) -> (r: String) ensures r@ == account_text(*self) { unimplemented!() }
+}
+/// sos_core::PublicIdentity (crates/core/src/identity.rs:12): account id + label
+#[verifier::external_body]
+pub struct PublicIdentity { _p: () }
+impl PublicIdentity {
+    pub uninterp spec fn id_v(&self) -> AccountId;
+    pub uninterp spec fn label_v(&self) -> Seq<char>;
+    /// identity.rs:27
+    #[verifier::external_body]
+    pub fn account_id(&self) -> (r: &AccountId) ensures *r == self.id_v() { unimplemented!() }
+    /// identity.rs:32
+    #[verifier::external_body]
+    pub fn label(&self) -> (r: &str) ensures r@ == self.label_v() { unimplemented!() }
+}
+/// crates/database_upgrader/src/lib.rs `UpgradeOptions` — opaque (only the server list remapping reads it)
+#[verifier::external_body]
+pub struct UpgradeOptions { _p: () }
+
+/// db_import.rs:36 `enum AccountStorage { Server(ServerStorage), Client(ClientStorage) }` with db_import.rs:52
+/// `impl StorageEventLogs for AccountStorage` (each method dispatches to the same method of the wrapped storage).
+/// Stand-in: the FILE-SYSTEM account being upgraded; its five kinds of logs are functions of the value.
+#[verifier::external_body]
+pub struct AccountStorage { _p: () }
+impl AccountStorage {
+    pub uninterp spec fn identity_v(&self) -> FolderEventLog;
+    pub uninterp spec fn account_v(&self) -> AccountEventLog;
+    pub uninterp spec fn device_v(&self) -> DeviceEventLog;
+    pub uninterp spec fn file_v(&self) -> FileEventLog;
+    pub uninterp spec fn folder_v(&self, id: Seq<u8>) -> FolderEventLog;
+    /// db_import.rs:55 -> `ServerStorage::identity_log` / `ClientStorage::identity_log`: the log of the identity folder
+    #[verifier::external_body]
+    pub fn identity_log(&self) -> (r: Result<Arc<RwLock<FolderEventLog>>>)
+        ensures r matches Ok(a) ==> a.log() == self.identity_v(),
+    { unimplemented!() }
+    /// db_import.rs:62
+    #[verifier::external_body]
+    pub fn account_log(&self) -> (r: Result<Arc<RwLock<AccountEventLog>>>)
+        ensures r matches Ok(a) ==> a.log() == self.account_v(),
+    { unimplemented!() }
+    /// db_import.rs:69
+    #[verifier::external_body]
+    pub fn device_log(&self) -> (r: Result<Arc<RwLock<DeviceEventLog>>>)
+        ensures r matches Ok(a) ==> a.log() == self.device_v(),
+    { unimplemented!() }
+    /// db_import.rs:76
+    #[verifier::external_body]
+    pub fn file_log(&self) -> (r: Result<Arc<RwLock<FileEventLog>>>)
+        ensures r matches Ok(a) ==> a.log() == self.file_v(),
+    { unimplemented!() }
+    /// db_import.rs:90: the log of the folder with that id
+    #[verifier::external_body]
+    pub fn folder_log(&self, id: &VaultId) -> (r: Result<Arc<RwLock<FolderEventLog>>>)
+        ensures r matches Ok(a) ==> a.log() == self.folder_v(id.0@),
+    { unimplemented!() }
+}
+
+/// async_sqlite::Client (0.5.3 src/client.rs): `conn_mut_and_then(func)` sends `func` to the connection thread, runs it
+/// ONCE on the `&mut Connection` and hands its result back; when the channel is closed `func` does not run.
+/// R19: the connection the client owns is threaded as `db`.
+#[verifier::external_body]
+pub struct Client { _p: () }
+impl Client {
+    #[verifier::external_body]
+    pub fn conn_mut_and_then<F, T>(&self, db: &mut Connection, func: F) -> (r: Result<T>)
+        where F: FnOnce(&mut Connection) -> Result<T>,
+        requires func.requires((old(db),)),
+        ensures
+            r matches Ok(t) ==> func.ensures((old(db),), Ok(t)),
+            r is Err ==> final(db)@ == old(db)@ || exists|e: Error| #![auto] func.ensures((old(db),), Err(e)),
+    { unimplemented!() }
+}
+
+// ---- the parts of `import_account` no clause of the kernel mentions (declared block rewrites R20) ---------------------
+/// db_import.rs:272-284: preferences.json -> `PreferenceRow`s.  Reads files only.
+#[verifier::external_body]
+pub fn load_account_preferences(paths: &Arc<Paths>) -> (r: Result<Option<Vec<PreferenceRow>>>) { unimplemented!() }
+/// db_import.rs:286-299: system-messages.json -> `SystemMessageRow`s.  Reads files only.
+#[verifier::external_body]
+pub fn load_account_messages(paths: &Arc<Paths>) -> (r: Result<Option<Vec<SystemMessageRow>>>) { unimplemented!() }
+/// db_import.rs:301-324: remote origins file (+ `options.remap_servers`) -> `ServerRow`s.  Reads files only.
+#[verifier::external_body]
+pub fn load_remote_servers(paths: &Arc<Paths>, options: &UpgradeOptions) -> (r: Result<Option<Vec<ServerRow>>>) { unimplemented!() }
+/// db_import.rs:422-438: `ServerStorage::new(BackendTarget::Database(..), account_id)` /
+/// `ClientStorage::new_unauthenticated(BackendTarget::Database(..), account_id)`: opens the imported account (loads the
+/// account row, the folder rows and the commit trees of the logs).  ASSUMED FRAME: it does not touch the event tables,
+/// the folder tables or the account tables.
+#[verifier::external_body]
+pub fn open_db_storage(paths: &Arc<Paths>, client: &mut Client, db: &mut Connection, account: &PublicIdentity) -> (r: Result<AccountStorage>)
+    ensures only_rest_differs(old(db)@, final(db)@),
+{ unimplemented!() }
